@@ -161,7 +161,7 @@ class WMSServer(Server):
 
         resp = Response(result_buf, content_type=img_opts.format.mime_type)
 
-        if query.tiled_only and isinstance(result.cacheable, CacheInfo):
+        if query.tiled_only and isinstance(result.cacheable, CacheInfo) and result.cacheable:
             cache_info = result.cacheable
             resp.cache_headers(cache_info.timestamp, etag_data=(cache_info.timestamp, cache_info.size),
                                max_age=self.max_tile_age)
